@@ -144,26 +144,16 @@ func classify(more, nonstart error) func(error) string {
 	}
 }
 
-// distinctFrames wraps a frame generator so that no two consecutive frames are equal (the C07
-// oracle identifies a frame by its content).
+// distinctFrames wraps a frame generator so that all frames drawn for one case differ (the C07
+// oracle identifies a frame by its content; after a dropped frame its neighbours are adjacent).
 func distinctFrames(gen func(r *rand.Rand) cu.Frame) func(r *rand.Rand) cu.Frame {
-	var prev cu.Frame
-	eq := func(a, b cu.Frame) bool {
-		if len(a) != len(b) {
-			return false
-		}
-		for i := range a {
-			if string(a[i]) != string(b[i]) {
-				return false
-			}
-		}
-		return true
-	}
+	seen := map[string]bool{}
 	return func(r *rand.Rand) cu.Frame {
 		for {
 			f := gen(r)
-			if prev == nil || !eq(prev, f) {
-				prev = f
+			k := unitsStr(f)
+			if !seen[k] {
+				seen[k] = true
 				return f
 			}
 		}
